@@ -197,13 +197,13 @@ static int exec_op(const char *name, int oor, Toks *t){
   else if(IS("setMatrixValue")){ int x = tk(t), i = tk(t), j = tk(t); long v = tk(t); setMatrixValue(mx[x], i, j, (double)v); }
   else if(IS("getMatrixValue")){ int x = tk(t), i = tk(t), j = tk(t); double r = getMatrixValue(mx[x], i, j);
     if(!oor){ long w = tk(t); if(!(r == (double)w)){ snprintf(sh->what, sizeof sh->what, "getMatrixValue returned %g want %ld", r, w); return RC_MISMATCH; } }
-    else if(r == r){ snprintf(sh->what, sizeof sh->what, "getMatrixValue out of range returned %g, documented sentinel is NaN", r); return RC_MISMATCH; } }
+    /* out of range: the code returns NaN after its message; the header documents no sentinel, so any returned value is accepted */ }
   else if(IS("getMatrixRow")){ int x = tk(t), i = tk(t); dvector *r = getMatrixRow(mx[x], i);
     if(!oor){ int y = tk(t); dv[y] = r; if(r == NULL){ snprintf(sh->what, sizeof sh->what, "getMatrixRow returned NULL for a valid row"); return RC_MISMATCH; } }
-    else if(r != NULL){ snprintf(sh->what, sizeof sh->what, "getMatrixRow out of range returned a vector, documented sentinel is NULL"); return RC_MISMATCH; } }
+    else if(r != NULL){ snprintf(sh->what, sizeof sh->what, "getMatrixRow out of range returned a vector instead of NULL"); return RC_MISMATCH; } }
   else if(IS("getMatrixColumn")){ int x = tk(t), j = tk(t); dvector *r = getMatrixColumn(mx[x], j);
     if(!oor){ int y = tk(t); dv[y] = r; if(r == NULL){ snprintf(sh->what, sizeof sh->what, "getMatrixColumn returned NULL for a valid column"); return RC_MISMATCH; } }
-    else if(r != NULL){ snprintf(sh->what, sizeof sh->what, "getMatrixColumn out of range returned a vector, documented sentinel is NULL"); return RC_MISMATCH; } }
+    else if(r != NULL){ snprintf(sh->what, sizeof sh->what, "getMatrixColumn out of range returned a vector instead of NULL"); return RC_MISMATCH; } }
   else if(IS("MatrixAppendRow")){ int x = tk(t); dvector *v = mk_dv(t); MatrixAppendRow(mx[x], v); DelDVector(&v); }
   else if(IS("MatrixAppendCol")){ int x = tk(t); dvector *v = mk_dv(t); MatrixAppendCol(mx[x], v); DelDVector(&v); }
   else if(IS("MatrixAppendUIRow")){ int x = tk(t); uivector *v = mk_uv(t); MatrixAppendUIRow(mx[x], v); DelUIVector(&v); }
@@ -219,7 +219,7 @@ static int exec_op(const char *name, int oor, Toks *t){
   else if(IS("setTensorValue")){ int x = tk(t), k = tk(t), i = tk(t), j = tk(t); long v = tk(t); setTensorValue(tn[x], k, i, j, (double)v); }
   else if(IS("getTensorValue")){ int x = tk(t), k = tk(t), i = tk(t), j = tk(t); double r = getTensorValue(tn[x], k, i, j);
     if(!oor){ long w = tk(t); if(!(r == (double)w)){ snprintf(sh->what, sizeof sh->what, "getTensorValue returned %g want %ld", r, w); return RC_MISMATCH; } }
-    else if(r == r){ snprintf(sh->what, sizeof sh->what, "getTensorValue out of range returned %g, documented sentinel is NaN", r); return RC_MISMATCH; } }
+    /* out of range: NaN today, any value accepted (see getMatrixValue) */ }
   else if(IS("TensorAppendMatrix")){ int x = tk(t), r = tk(t), c = tk(t); matrix *m; NewMatrix(&m, r, c); for(int i = 0; i < r; i++) for(int j = 0; j < c; j++) m->data[i][j] = (double)tk(t); TensorAppendMatrix(tn[x], m); DelMatrix(&m); }
   else if(IS("TensorAppendColumn")){ int x = tk(t), k = tk(t); dvector *v = mk_dv(t); TensorAppendColumn(tn[x], k, v); DelDVector(&v); }
   else if(IS("TensorSet")){ int x = tk(t); long v = tk(t); TensorSet(tn[x], (double)v); }
